@@ -1450,9 +1450,10 @@ def addrRule (i : MyIntf) (reg : Registry) (qname : BList) (qtype : Nat) (svc : 
      (if qtype == TYPE_AAAA || qtype == TYPE_ANY then addrsOn svc i false else [])).map fun ip =>
       { name := reg.resolveName svc.host, ty := addrType ip, flush := true, ttl := TTL_HOST, rdata := addrRData ip }
 
-/-- the service an instance-name question is about (full name compared lower-cased) -/
+/-- the service an instance-name question is about: the one whose CURRENT full name (the name as
+    registered, resolved through the name changes) is the question's name, compared lower-cased -/
 def instanceOf (services : List (BList × Service)) (i : MyIntf) (reg : Registry) (v4 : Bool) (qname : BList) : Option Service :=
-  match services.find? (fun e => reg.resolveName e.1 == lower qname) with
+  match services.find? (fun e => lower (reg.resolveName e.2.fullname) == lower qname) with
   | some (_, svc) => if svc.announcedOn i.index && !(addrsOn svc i v4).isEmpty then some svc else none
   | none => none
 
